@@ -71,8 +71,23 @@
 (*                  <<"SCRIPT", json>>.                                      *)
 (* kind = "rres":   the same through the real server; bounds RRes*, c.mtls   *)
 (*                  in RResMtls; printed as <<"RSCRIPT", json>>.             *)
-(* Extra \subseteq {"rot", "rrot", "rfail", "client", "res", "rres"}       *)
-(* selects the last six.                                                   *)
+(* kind = "fca":    duplex scripts in which the client-CA BUNDLE is UNUSABLE  *)
+(*                  when it is read (mutual TLS): op "botch" with cause =    *)
+(*                  "ca" is a reload request while the file at the           *)
+(*                  configured path yields no CA (TlsAuth!BotchedReloadCA;   *)
+(*                  the next "reload" restores the bundle first), and a      *)
+(*                  script may BEGIN with op "badstart" (the server is       *)
+(*                  started on such a file, TlsAuth!BotchedStart).  A        *)
+(*                  connection is ConnectAs(cc) for every cc of ClientCerts  *)
+(*                  (no certificate, one of a foreign CA, the trusted one):  *)
+(*                  a probe of the client authentication in force.  Bounds   *)
+(*                  FConn / FBotch / FReload / FUse; printed as              *)
+(*                  <<"SCRIPT", json>>.                                      *)
+(* kind = "rfca":   the same through the real server (botch = overwrite the  *)
+(*                  --tls-ca file with junk + SIGUSR1), without "badstart"   *)
+(*                  and without uses; printed as <<"RSCRIPT", json>>.        *)
+(* Extra \subseteq {"rot", "rrot", "rfail", "client", "res", "rres", "fca", *)
+(* "rfca"} selects the last eight.                                         *)
 (* On every state TLC checks Undisturbed, Fresh, ConfigKept, CAFollows,    *)
 (* JudgedAsConfigured, TicketsOfThisConfiguration, Authenticated and       *)
 (* ClientFollowsRoots.                                                     *)
@@ -89,7 +104,7 @@ CONSTANTS MaxConn, MaxReload, MaxUse, Mtls,
           RResConn, RResReload, RResRotate, RResUse, RResMtls,
           Extra
 
-ASSUME Extra \subseteq {"rot", "rrot", "client", "rfail", "res", "rres"}
+ASSUME Extra \subseteq {"rot", "rrot", "client", "rfail", "res", "rres", "fca", "rfca"}
 
 VARIABLES kind, c, hist, obs
 
@@ -103,6 +118,8 @@ Bound(op) ==
     [] kind = "rot"    -> (CASE op = "connect" -> RotConn [] op = "reload" -> RotReload [] op = "rotate" -> RotRotate [] op = "use" -> RotUse [] OTHER -> 0)
     [] kind = "rrot"   -> (CASE op = "connect" -> RRotConn [] op = "reload" -> RRotReload [] op = "rotate" -> RRotRotate [] op = "use" -> RRotUse [] OTHER -> 0)
     [] kind = "rfail"  -> (CASE op = "connect" -> FConn [] op = "reload" -> FReload [] op = "botch" -> FBotch [] op = "use" -> FUse [] OTHER -> 0)
+    [] kind = "fca"    -> (CASE op = "connect" -> FConn [] op = "reload" -> FReload [] op = "botch" -> FBotch [] op = "use" -> FUse [] OTHER -> 0)
+    [] kind = "rfca"   -> (CASE op = "connect" -> FConn [] op = "reload" -> FReload [] op = "botch" -> FBotch [] OTHER -> 0)
     [] kind = "client" -> (CASE op = "connect" -> CliConn [] op = "rotate" -> CliRotate [] OTHER -> 0)
     \* (no rotation without a client CA)
     [] kind = "res"    -> (CASE op = "connect" -> ResConn [] op = "reload" -> ResReload [] op = "use" -> ResUse
@@ -119,6 +136,7 @@ Init ==
      \/ kind \in Extra \cap {"rot", "rrot"} /\ c = [mtls |-> TRUE] /\ MInitWith("configured")
      \/ kind \in Extra \cap {"client"} /\ c = [mtls |-> FALSE] /\ MInitWith("none")
      \/ kind \in Extra \cap {"rfail"} /\ c \in [mtls : FailMtls] /\ MInitWith(CAOf(c.mtls))
+     \/ kind \in Extra \cap {"fca", "rfca"} /\ c = [mtls |-> TRUE] /\ MInitWith("configured")
      \/ kind \in Extra \cap {"res"} /\ c \in [mtls : ResMtls] /\ MInitWith(CAOf(c.mtls))
      \/ kind \in Extra \cap {"rres"} /\ c \in [mtls : RResMtls] /\ MInitWith(CAOf(c.mtls))
 
@@ -166,6 +184,20 @@ DoBotch ==
   /\ hist' = Append(hist, [op |-> "botch", conn |-> 0])
   /\ obs' = Append(obs, live)
 
+\* a reload request while the client-CA bundle at the configured path is unusable; obs = the identity that keeps serving
+DoBotchCA ==
+  /\ Count("botch") < Bound("botch")
+  /\ BotchedReloadCA
+  /\ hist' = Append(hist, [op |-> "botch", conn |-> 0, cause |-> "ca"])
+  /\ obs' = Append(obs, live)
+
+\* the script begins with an attempt to START the server on an unusable client-CA bundle
+DoBadStart ==
+  /\ hist = <<>>
+  /\ BotchedStart
+  /\ hist' = Append(hist, [op |-> "badstart", conn |-> 0, cause |-> "ca"])
+  /\ obs' = Append(obs, live)
+
 DoUse(x) ==
   /\ Count("use") < Bound("use")
   /\ Use(x)
@@ -198,6 +230,8 @@ Next ==
      \/ kind \in {"rot", "rrot"} /\ ((\E cc \in RotCerts : DoConnectAs(cc)) \/ DoReload \/ DoRotate
                                        \/ \E x \in DOMAIN conns : DoUse(x))
      \/ kind = "rfail" /\ (DoConnectAs(RightCert) \/ DoReload \/ DoBotch \/ \E x \in DOMAIN conns : DoUse(x))
+     \/ kind \in {"fca", "rfca"} /\ ((\E cc \in ClientCerts : DoConnectAs(cc)) \/ DoReload \/ DoBotchCA
+                                       \/ (kind = "fca" /\ DoBadStart) \/ \E x \in DOMAIN conns : DoUse(x))
      \/ kind = "client" /\ ((\E srv \in CPresentable : DoCConnect(srv)) \/ DoCRotate)
      \/ kind \in {"res", "rres"} /\ ((\E cc \in ResCerts : DoConnectReturning(cc)) \/ DoReload \/ DoRotate
                                        \/ \E x \in DOMAIN conns : DoUse(x))
@@ -207,20 +241,20 @@ Spec == Init /\ [][Next]_vars
 Complete ==
   /\ Count("connect") = Bound("connect") /\ Count("reload") = Bound("reload") /\ Count("rotate") = Bound("rotate")
   /\ Count("botch") = Bound("botch")
-  /\ Count("use") = Bound("use") \/ (kind \in {"real", "rot", "rrot", "rfail", "res", "rres"} /\ conns = <<>>)
+  /\ Count("use") = Bound("use") \/ (kind \in {"real", "rot", "rrot", "rfail", "res", "rres", "fca", "rfca"} /\ conns = <<>>)
 
 TypeOK ==
   /\ MTypeOK
-  /\ kind \in {"case", "script", "real", "rot", "rrot", "rfail", "client", "res", "rres"}
+  /\ kind \in {"case", "script", "real", "rot", "rrot", "rfail", "client", "res", "rres", "fca", "rfca"}
   /\ kind = "case" => c \in Cases /\ hist = <<>> /\ Expected(c) \subseteq Outcomes
   /\ Len(obs) = Len(hist)
 
 Emit ==
   CASE kind = "case" ->
          PrintT(<<"CASE", ToJson([case |-> c, exp |-> Expected(c), asks |-> ServerAsksForCert(c)])>>)
-    [] kind \in {"script", "rot", "res"} /\ Complete ->
+    [] kind \in {"script", "rot", "res", "fca"} /\ Complete ->
          PrintT(<<"SCRIPT", ToJson([mtls |-> c.mtls, ops |-> hist, exp |-> obs])>>)
-    [] kind \in {"real", "rrot", "rfail", "rres"} /\ Complete ->
+    [] kind \in {"real", "rrot", "rfail", "rres", "rfca"} /\ Complete ->
          PrintT(<<"RSCRIPT", ToJson([mtls |-> c.mtls, ops |-> hist, exp |-> obs])>>)
     [] kind = "client" /\ Complete ->
          PrintT(<<"CSCRIPT", ToJson([ops |-> hist, exp |-> obs])>>)
